@@ -195,6 +195,43 @@ theorem C12_connect_registers (s : State) (p : Nat) (hq : s.quit = false) (hoff 
         simp only [h1, ↓reduceIte, List.find?_cons]
         cases (x.addr == q) <;> simp only [ih]
 
+/-- **A stale wake is ignored** — a wake from an idle timer that does not carry
+the batch's current generation (or names a batch that has ended) changes
+nothing and produces no verdict, in every state.  Together with
+`C12_progress_advances_generation` this is "a batch fails with an idle timeout
+only if no request finished within the window": every successful result that
+leaves the batch live opens a new generation, so the timer of the window it
+closed can no longer end the batch. -/
+theorem C12_stale_wake_ignored (s : State) (b g : Nat)
+    (h : ∀ bp, findB s.batches b = some bp → g ≠ bp.gen) :
+    (step s (.wake b g)).1 = s ∧ ∀ b' v, Out.verdict b' v ∉ (step s (.wake b g)).2 := by
+  unfold step
+  by_cases hq : s.quit = true
+  · simp only [hq, ↓reduceIte, List.mem_singleton, reduceCtorEq, not_false_eq_true, implies_true, and_self]
+  · have hq' : s.quit = false := by cases hh : s.quit <;> simp_all
+    simp only [hq', Bool.false_eq_true, ↓reduceIte]
+    by_cases ho : offering s = true
+    · simp only [ho, ↓reduceIte, List.mem_singleton, reduceCtorEq, not_false_eq_true, implies_true, and_self]
+    · simp only [ho, Bool.false_eq_true, ↓reduceIte, stepWake]
+      cases hf : findB s.batches b with
+      | none => simp only [List.not_mem_nil, not_false_eq_true, implies_true, and_self]
+      | some bp =>
+        have hne : (g != bp.gen) = true := by simp only [bne_iff_ne, ne_eq]; exact h bp hf
+        simp only [hne, ↓reduceIte, List.not_mem_nil, not_false_eq_true, implies_true, and_self]
+
+/-- a successful result that leaves a batch with a ProgressTimeout live (not its
+last request, hard deadline not passed) advances the batch's generation -/
+theorem C12_progress_advances_generation (s : State) (p : Nat) (w : Worker) (job : Job) (bp : Batch)
+    (hq : s.quit = false) (hoff : offering s = false)
+    (hw : findW s.workers p = some w) (ha : w.active = some job)
+    (hf : findB s.batches ((s.queries.lookup job.idx).getD 0) = some bp)
+    (hrem : bp.rem ≠ 1) (hh : bp.hardPassed = false) (hp : bp.prog = true) :
+    (step s (.result p .ok)).1.batches =
+      bumpGen (setRem s.batches ((s.queries.lookup job.idx).getD 0) (bp.rem - 1)) ((s.queries.lookup job.idx).getD 0) := by
+  have hr : (bp.rem == 1) = false := by simp only [beq_eq_false_iff_ne, ne_eq]; exact hrem
+  simp only [step, hq, hoff, Bool.false_eq_true, ↓reduceIte, stepResult, hw, ha, hf, hr, hardCheck, hh, hp,
+    Bool.and_self]
+
 /-- **Re-issue** — when a worker reports a failure other than cancellation
 (timeout, disconnect, any other error) for the job it holds, then, unless the
 job's batch ended in this very step (retry cap reached, hard deadline passed) or
@@ -305,6 +342,14 @@ example :
     let s := run init [.peer 1, .exit 1]
     findW s.workers 1 = some ⟨1, none, true⟩ ∧ s.quit = false ∧ offering s = false ∧
     outs s [.peer 1, .newBatch 1 false 2 false false, .accept 1] = [.dispatched 1 0 0 2] := by decide
+/-- `C12_stale_wake_ignored`: after one of two requests finished OK the batch is in generation 2; the wake of
+generation 1 (the timer that was racing the result) is dropped, the wake of generation 2 ends the batch -/
+example :
+    let s := run init [.peer 1, .newBatch 2 false 2 true false, .accept 1, .result 1 .ok]
+    (findB s.batches 0).map (·.gen) = some 2 ∧
+    (step s (.accept 1)).1.verdicts = [] ∧
+    (step (step s (.accept 1)).1 (.wake 0 1)).1.verdicts = [] ∧
+    (step (step s (.accept 1)).1 (.wake 0 2)).1.verdicts = [(0, .res .timeout)] := by decide
 /-- `C12_rank`: with two free workers of different score only the better one may accept -/
 example :
     let s := run init [.peer 1, .peer 2, .newBatch 1 false 2 false false, .accept 1, .result 1 .other]
@@ -329,7 +374,7 @@ theorem C12_worker_source_facts :
       ("peer.OnDisconnect()", "", "return"), ("quit", "", "return")] ∧
     Gen.Worker.precheckArms = [("job.cancelChan", "", "break"), ("job.internalCancelChan", "", "break"),
       ("default", "", "fall")] ∧
-    Gen.Worker.waitArms = [("msgChan", "", "break Loop"), ("timeout.C", "ErrQueryTimeout", "break Loop"),
+    Gen.Worker.waitArms = [("msgChan", "", "finished:break Loop;unfinished:continue Loop"), ("timeout.C", "ErrQueryTimeout", "break Loop"),
       ("peer.OnDisconnect()", "ErrPeerDisconnected", "break Loop"), ("job.cancelChan", "ErrJobCanceled", "break Loop"),
       ("job.internalCancelChan", "ErrJobCanceled", "break Loop"), ("quit", "", "return")] ∧
     Gen.Worker.reportArms = [("results<-", "", "fall"), ("quit", "", "return")] ∧
